@@ -1082,3 +1082,477 @@ def wide_expected_branches(mode):
             if mode == 'C09':
                 out.append('convention/aliased/numgrad-central/' + cname)
     return sorted(set(out))
+
+
+# --------------------------------------------------------------------------
+# FORMS streams (shared by C08 and C09, oracle-only): ARGUMENT FORMS (list / tuple / ndarray /
+# element / numpy scalar / int vs float for every step or parameter the docs allow in several
+# forms, through the calculus rules), VALIDATION (every documented rejection must raise the
+# documented error; the nearest legal neighbour is accepted and passes the property oracle),
+# DEFAULTS (None-defaults computed from the space, on float16 / float32 / float64).
+
+def _oracle_on(ctx, mode, sp, f, seed, cname='forms'):
+    """Property oracle of `mode` on functional f (reuses the WIDE case: conventions, Moreau /
+    Fenchel-Young resp. gradient vs differences)."""
+    has_grad = safe_call(lambda: f.gradient)[0] == 'ok'
+    has_prox = safe_call(lambda: f.proximal(1.0))[0] == 'ok' and \
+        safe_call(lambda: f.convex_conj.proximal(1.0))[0] == 'ok'
+
+    class _C(object):
+        def hit(self, *a):
+            pass
+    return wide_case(_C(), mode, 'forms', sp, 'base', cname, f, has_grad, has_prox, seed, hit=False)
+
+
+def _same(sp, a, b, tol=None):
+    return _w_close(sp, _w_flat(sp, a), _w_flat(sp, b))
+
+
+def argform_cases():
+    """(stratum, builder(rng) -> list of (form name, thunk returning an element / number))
+    All forms of one case must give the same answer as its first form."""
+    import odl
+    import odl.solvers as sol
+    from odl.solvers.functional.functional import FunctionalQuadraticPerturb
+    r3 = odl.rn(3)
+    ps = odl.ProductSpace(r3, 2)
+    nested = odl.ProductSpace(odl.ProductSpace(odl.rn(2), 2), odl.rn(2))
+    cases = []
+
+    def sep():
+        return sol.SeparableSum(sol.L1Norm(r3), sol.L2Norm(r3))
+
+    def steps_forms(mk, wrap_name):
+        def build(rng):
+            x = _w_elem(ps, rng, -12, 12, 4.0)
+            s = (rng.choice([0.5, 1.0]), rng.choice([0.25, 2.0]))
+            f = mk()
+            return ps, x, [
+                ('list', lambda: f.proximal([s[0], s[1]])(x)),
+                ('tuple', lambda: f.proximal((s[0], s[1]))(x)),
+                ('ndarray', lambda: f.proximal(np.array([s[0], s[1]]))(x)),
+                ('numpy-scalars', lambda: f.proximal([np.float64(s[0]), np.float32(s[1])])(x)),
+            ], ('componentwise', lambda: _componentwise(mk, s, x, ps))
+        return ('argform/steps/' + wrap_name, build)
+
+    cases.append(steps_forms(sep, 'SeparableSum'))
+    cases.append(steps_forms(lambda: 2 * sep(), 'int*SeparableSum'))
+    cases.append(steps_forms(lambda: 2.0 * sep(), 'float*SeparableSum'))
+    cases.append(steps_forms(lambda: sep() * 2, 'SeparableSum*int'))
+    cases.append(steps_forms(lambda: sep() * 0.5, 'SeparableSum*float'))
+    cases.append(steps_forms(lambda: sep().translated(ps.one()), 'SeparableSum.translated'))
+    cases.append(steps_forms(lambda: sep() + 1.5, 'SeparableSum+const'))
+    cases.append(steps_forms(lambda: (3 * sep()).convex_conj, '(int*SeparableSum).convex_conj'))
+
+    def nested_build(rng):
+        inner = sol.SeparableSum(sol.L1Norm(odl.rn(2)), sol.L2NormSquared(odl.rn(2)))
+        f = 2 * sol.SeparableSum(inner, sol.L2Norm(odl.rn(2)))
+        x = _w_elem(nested[0], rng)  # noqa (placeholder, replaced below)
+        x = nested.element([[[1.5, -2.0], [0.5, 3.0]], [2.0, -1.0]])
+        return nested, x, [
+            ('list', lambda: f.proximal([[0.5, 0.25], 1.0])(x)),
+            ('tuple', lambda: f.proximal(((0.5, 0.25), 1.0))(x)),
+            ('mixed', lambda: f.proximal([(0.5, 0.25), 1.0])(x)),
+        ], None
+    cases.append(('argform/steps/nested-SeparableSum', nested_build))
+
+    def scalar_sigma(rng):
+        f = sol.L1Norm(r3).translated(r3.one()) * 2.0
+        x = _w_elem(r3, rng, -12, 12, 4.0)
+        return r3, x, [
+            ('float', lambda: f.proximal(2.0)(x)),
+            ('int', lambda: f.proximal(2)(x)),
+            ('numpy-float64', lambda: f.proximal(np.float64(2.0))(x)),
+            ('numpy-int', lambda: f.proximal(np.int64(2))(x)),
+            ('0d-array', lambda: f.proximal(np.array(2.0))(x)),
+        ], None
+    cases.append(('argform/sigma/scalar', scalar_sigma))
+
+    def scal_forms(side):
+        def build(rng):
+            g = sol.Huber(r3, 0.5).translated(r3.one())
+            x = _w_elem(r3, rng, -12, 12, 4.0)
+
+            def mk(s):
+                return (s * g) if side == 'left' else (g * s)
+
+            def obs(s):
+                f = mk(s)
+                return np.concatenate([[float(f(x))], _w_flat(r3, f.gradient(x)),
+                                       _w_flat(r3, f.proximal(0.5)(x)),
+                                       [float(f.convex_conj(0.25 * x))]])
+            return r3, x, [('float', lambda: obs(2.0)), ('int', lambda: obs(2)),
+                           ('numpy-float64', lambda: obs(np.float64(2.0))),
+                           ('numpy-int', lambda: obs(np.int64(2)))], None
+        return ('argform/scalar/' + side, build)
+    cases.append(scal_forms('left'))
+    cases.append(scal_forms('right'))
+
+    def vec_forms(rng):
+        x = _w_elem(r3, rng, -12, 12, 4.0)
+        t = [1.0, -0.5, 2.0]
+        f0 = sol.L2NormSquared(r3)
+
+        def obs(f):
+            return np.concatenate([[float(f(x))], _w_flat(r3, f.gradient(x)), _w_flat(r3, f.proximal(0.5)(x))])
+        return r3, x, [
+            ('element', lambda: obs(f0.translated(r3.element(t)))),
+            ('list', lambda: obs(f0.translated(t))),
+            ('tuple', lambda: obs(f0.translated(tuple(t)))),
+            ('ndarray', lambda: obs(f0.translated(np.array(t)))),
+            ('qp-list', lambda: obs(FunctionalQuadraticPerturb(f0.translated(t), 0, [0.0, 0.0, 0.0], 0))),
+            ('qp-int-coeff', lambda: obs(FunctionalQuadraticPerturb(f0.translated(t), 0, None, 0))),
+        ], None
+    cases.append(('argform/vector/translation', vec_forms))
+
+    def param_forms(rng):
+        x = _w_elem(r3, rng, -12, 12, 4.0)
+
+        def obs(f):
+            return np.concatenate([[float(f(x))], _w_flat(r3, f.gradient(x)), _w_flat(r3, f.proximal(0.5)(x))])
+        return r3, x, [
+            ('float', lambda: obs(sol.Huber(r3, 1.0) + 2.0)),
+            ('int', lambda: obs(sol.Huber(r3, 1) + 2)),
+            ('numpy', lambda: obs(sol.Huber(r3, np.float64(1.0)) + np.float64(2.0))),
+        ], None
+    cases.append(('argform/parameter/gamma-constant', param_forms))
+    return cases
+
+
+def _componentwise(mk, s, x, ps):
+    """Reference for per-component steps: the same wrapper applied to each component
+    functional separately, scalar float step per component."""
+    import odl.solvers as sol
+    r3 = ps[0]
+    f = mk()
+    # recover the two component functionals by probing f on vectors supported in one component
+    comps = []
+    for i, fi in enumerate((sol.L1Norm(r3), sol.L2Norm(r3))):
+        comps.append(fi)
+    # wrapper identification by behaviour is fragile; use the separable structure of the result
+    # instead: prox of a separable sum acts independently per component, so evaluate the SAME
+    # object with a scalar step equal to s_i and keep component i
+    parts = []
+    for i in range(2):
+        parts.append(np.asarray(f.proximal(float(s[i]))(x)[i]).copy())
+    return ps.element(parts)
+
+
+def argform_stream(ctx, mode):
+    import random
+    for stratum, build in argform_cases():
+        seed = ctx.rng.getrandbits(40)
+        desc = {'forms': 'argform', 'stratum': stratum, 'seed': seed, 'mode': mode}
+        for key, what in argform_run(stratum, build, seed, ctx):
+            ctx.violation('{} {}'.format(key, stratum), what, desc)
+        ctx.case(('argform', stratum))
+
+
+def argform_run(stratum, build, seed, ctx=None):
+    import random
+    rng = random.Random(seed)
+    problems = []
+    try:
+        sp, x, forms, ref = build(rng)
+    except Exception as e:  # noqa
+        return [('argform-build-raises', '{}: {}'.format(type(e).__name__, str(e)[:150]))]
+    base_name, base = None, None
+    for name, thunk in forms:
+        if ctx is not None:
+            ctx.hit('{}/{}'.format(stratum, name))
+        st, r = safe_call(thunk)
+        if st != 'ok':
+            problems.append(('argform-raises', 'form `{}` raised {} (x = {})'.format(
+                name, st, _w_flat(sp, x).tolist()[:6])))
+            continue
+        if base is None:
+            base_name, base = name, r
+            continue
+        fa = r if isinstance(r, np.ndarray) else _w_flat(sp, r)
+        fb = base if isinstance(base, np.ndarray) else _w_flat(sp, base)
+        if not _w_close(sp, fb, fa):
+            problems.append(('argform-differs', 'form `{}` gives {} but form `{}` gives {} (x = {})'.format(
+                name, fa.tolist()[:6], base_name, fb.tolist()[:6], _w_flat(sp, x).tolist()[:6])))
+    if ref is not None and base is not None:
+        st, r = safe_call(ref[1])
+        if st == 'ok' and not _w_close(sp, _w_flat(sp, base), _w_flat(sp, r)):
+            problems.append(('argform-differs', 'form `{}` gives {} but the {} reference gives {}'.format(
+                base_name, _w_flat(sp, base).tolist()[:6], ref[0], _w_flat(sp, r).tolist()[:6])))
+    return problems
+
+
+def validation_cases():
+    """(id, thunk that must raise, expected exception names, legal neighbour thunk -> (space, f) or None)"""
+    import odl
+    import odl.solvers as sol
+    from odl.solvers.functional import functional as F
+    from odl.solvers.functional.derivatives import NumericalGradient, NumericalDerivative
+    from odl.solvers.nonsmooth import proximal_operators as P
+    r3, r2, c3 = odl.rn(3), odl.rn(2), odl.cn(3)
+    ps = odl.ProductSpace(r3, 2)
+    mixed = odl.ProductSpace(odl.rn(2), odl.rn(3))
+    l2, l2c = sol.L2NormSquared(r3), sol.L2NormSquared(c3)
+    l1 = sol.L1Norm(r3)
+    op = odl.IdentityOperator(r3)
+    T, V, N = ('TypeError',), ('ValueError',), ('NotImplementedError',)
+    TV = ('TypeError', 'ValueError')
+    return [
+        ('lscal/non-functional', lambda: F.FunctionalLeftScalarMult(op, 2.0), T,
+         lambda: (r3, F.FunctionalLeftScalarMult(l2, 2.0))),
+        ('lscal/convex_conj-nonpositive', lambda: F.FunctionalLeftScalarMult(l2, -1.0).convex_conj, V,
+         lambda: (r3, F.FunctionalLeftScalarMult(l2, 0.5))),
+        ('lscal/convex_conj-zero', lambda: F.FunctionalLeftScalarMult(l2, 0.0).convex_conj, V,
+         lambda: (r3, F.FunctionalLeftScalarMult(l2, 1e-3))),
+        ('lscal/proximal-negative', lambda: F.FunctionalLeftScalarMult(l1, -2.0).proximal, V,
+         lambda: (r3, F.FunctionalLeftScalarMult(l1, 2.0))),
+        ('rscal/non-functional', lambda: F.FunctionalRightScalarMult(op, 2.0), T,
+         lambda: (r3, F.FunctionalRightScalarMult(l1, 2.0))),
+        ('rscal/proximal-complex-scalar', lambda: (l2c * (1 + 1j)).proximal(0.5), V,
+         lambda: (c3, l2c * (2 + 0j))),
+        ('arg_scaling/complex-scalar', lambda: P.proximal_arg_scaling(l2c.proximal, 1 + 1j), V,
+         lambda: (c3, l2c * 2.0)),
+        ('comp/non-functional', lambda: F.FunctionalComp(op, op), T,
+         lambda: (r3, F.FunctionalComp(l2, odl.ScalingOperator(r3, 2.0)))),
+        ('rvec/non-functional', lambda: F.FunctionalRightVectorMult(op, r3.one()), T,
+         lambda: (r3, F.FunctionalRightVectorMult(l2, r3.element([1.0, 2.0, -1.0])))),
+        ('sum/non-functional-left', lambda: F.FunctionalSum(op, l2), T, lambda: (r3, F.FunctionalSum(l1, l2))),
+        ('sum/non-functional-right', lambda: F.FunctionalSum(l2, op), T, None),
+        ('ssum/non-functional', lambda: F.FunctionalScalarSum(op, 1.0), T,
+         lambda: (r3, F.FunctionalScalarSum(l1, 1.0))),
+        ('ssum/scalar-not-in-range', lambda: F.FunctionalScalarSum(l2, 1 + 1j), T,
+         lambda: (r3, F.FunctionalScalarSum(l2, 1.0))),
+        ('translation/non-functional', lambda: F.FunctionalTranslation(op, r3.one()), T,
+         lambda: (r3, F.FunctionalTranslation(l1, r3.one()))),
+        ('translation/wrong-space-vector', lambda: F.FunctionalTranslation(l2, r2.one()), TV,
+         lambda: (r3, l2.translated([1.0, 0.0, -1.0]))),
+        ('infconv/non-functional', lambda: F.InfimalConvolution(op, l2), T, None),
+        ('qp/non-functional', lambda: F.FunctionalQuadraticPerturb(op, 1.0), T,
+         lambda: (r3, F.FunctionalQuadraticPerturb(l1, 1.0))),
+        ('qp/complex-quadratic-coeff', lambda: F.FunctionalQuadraticPerturb(l2c, quadratic_coeff=1 + 1j), V,
+         lambda: (c3, F.FunctionalQuadraticPerturb(l2c, quadratic_coeff=1 + 0j))),
+        ('qp/complex-quadratic-coeff-real-space',
+         lambda: F.FunctionalQuadraticPerturb(l2, quadratic_coeff=1 + 1j), TV,
+         lambda: (r3, F.FunctionalQuadraticPerturb(l2, quadratic_coeff=1.0))),
+        ('qp/complex-constant', lambda: F.FunctionalQuadraticPerturb(l2c, constant=1j), V,
+         lambda: (c3, F.FunctionalQuadraticPerturb(l2c, constant=1.0))),
+        ('qp/wrong-space-linear-term', lambda: F.FunctionalQuadraticPerturb(l2, linear_term=r2.one()), TV,
+         lambda: (r3, F.FunctionalQuadraticPerturb(l2, linear_term=r3.one()))),
+        ('qp/proximal-negative-coeff', lambda: F.FunctionalQuadraticPerturb(l1, -1.0).proximal, T,
+         lambda: (r3, F.FunctionalQuadraticPerturb(l1, 0.5))),
+        ('quadratic_perturbation/negative-a', lambda: P.proximal_quadratic_perturbation(l1.proximal, a=-1.0), V,
+         None),
+        ('product/non-functional', lambda: F.FunctionalProduct(op, l2), T, None),
+        ('quotient/non-functional', lambda: F.FunctionalQuotient(l2, op), T, None),
+        ('quotient/domain-mismatch', lambda: F.FunctionalQuotient(l2, sol.L2NormSquared(r2)), V,
+         lambda: (r3, F.FunctionalQuotient(l2, l2 + 1.0))),
+        ('defconj/non-functional', lambda: F.FunctionalDefaultConvexConjugate(op), T, None),
+        ('bregman/non-functional', lambda: F.BregmanDistance(op, r3.one(), r3.one()), T, None),
+        ('bregman/point-not-in-domain', lambda: F.BregmanDistance(l2, r2.one(), r3.one()), V,
+         lambda: (r3, F.BregmanDistance(l2, r3.one(), l2.gradient(r3.one())))),
+        ('bregman/subgrad-not-in-domain', lambda: F.BregmanDistance(l2, r3.one(), r2.one()), T, None),
+        ('groupl1/not-product-space', lambda: sol.GroupL1Norm(r3), T, lambda: (ps, sol.GroupL1Norm(ps))),
+        ('groupl1/not-power-space', lambda: sol.GroupL1Norm(mixed), T, None),
+        ('indgroupl1/not-product-space', lambda: sol.IndicatorGroupL1UnitBall(r3), T, None),
+        ('kl/prior-not-in-domain', lambda: sol.KullbackLeibler(r3, r2.one()), V,
+         lambda: (r3, sol.KullbackLeibler(r3, r3.one()))),
+        ('klce/prior-not-in-domain', lambda: sol.KullbackLeiblerCrossEntropy(r3, r2.one()), V, None),
+        ('separablesum/non-functional', lambda: sol.SeparableSum(l2, op), T, None),
+        ('quadform/nothing-given', lambda: sol.QuadraticForm(), V,
+         lambda: (r3, sol.QuadraticForm(vector=r3.one()))),
+        ('quadform/vector-wrong-space', lambda: sol.QuadraticForm(op, r2.one()), V, None),
+        ('quadform/constant-not-in-range', lambda: sol.QuadraticForm(op, constant=1j), V, None),
+        ('quadform/gradient-nonlinear-operator',
+         lambda: sol.QuadraticForm(odl.PowerOperator(r3, 2)).gradient, N, None),
+        ('lpnorm/gradient-p3', lambda: sol.LpNorm(r3, 3).gradient, N, lambda: (r3, sol.LpNorm(r3, 2))),
+        ('lpnorm/proximal-p3', lambda: sol.LpNorm(r3, 3).proximal, N, None),
+        ('nuclear/not-product-space', lambda: sol.NuclearNorm(r3), T, None),
+        ('numgrad/non-functional', lambda: NumericalGradient(op), T,
+         lambda: (r3, l2)),
+        ('numgrad/product-space', lambda: NumericalGradient(sol.L2NormSquared(ps)), T, None),
+        ('numgrad/unknown-method', lambda: NumericalGradient(l2, method='sideways'), V, None),
+        ('numderiv/non-operator', lambda: NumericalDerivative(3.0, r3.one()), T, None),
+        ('numderiv/unknown-method', lambda: NumericalDerivative(l2.gradient, r3.one(), method='sideways'), V,
+         None),
+        ('numderiv/product-space-domain',
+         lambda: NumericalDerivative(sol.L2NormSquared(ps).gradient, ps.one()), T, None),
+    ]
+
+
+def validation_stream(ctx, mode):
+    for vid, bad, expected, neighbour in validation_cases():
+        ctx.hit('validation/' + vid)
+        ctx.case(('validation', vid))
+        desc = {'forms': 'validation', 'id': vid, 'mode': mode}
+        msg = validation_run(ctx, mode, vid, bad, expected, neighbour)
+        for key, what in msg:
+            ctx.violation('{} {}'.format(key, vid), what, desc)
+
+
+def validation_run(ctx, mode, vid, bad, expected, neighbour, seed=12345):
+    out = []
+    try:
+        r = bad()
+        out.append(('validation-accepted',
+                    'the documented rejection did not happen: no exception (returned {})'.format(
+                        type(r).__name__)))
+    except Exception as e:  # noqa
+        names = [c.__name__ for c in type(e).__mro__]
+        if not any(x in names for x in expected):
+            out.append(('validation-wrong-error', 'raised {}: {} (documented: {})'.format(
+                type(e).__name__, str(e)[:120], '/'.join(expected))))
+    if neighbour is not None:
+        st, res = safe_call(neighbour)
+        if st != 'ok':
+            out.append(('validation-neighbour-rejected', 'the nearest legal input raised ' + st))
+        else:
+            sp, f = res
+            for key, what in _oracle_on(ctx, mode, sp, f, seed)[:2]:
+                out.append(('validation-neighbour ' + key, what))
+    return out
+
+
+def defaults_cases():
+    import odl
+    import odl.solvers as sol
+    return ['numgrad-step/' + dt for dt in ('float16', 'float32', 'float64')] + \
+           ['numderiv-step/' + dt for dt in ('float32', 'float64')] + \
+           ['kl-prior/float32', 'kl-prior/float64', 'groupl1-exponent', 'qp-linear-term',
+            'simplex-rtol/float32', 'simplex-rtol/float64', 'sumconstraint-rtol/float32',
+            'sumconstraint-rtol/float64', 'lscal-proximal-sigma']
+
+
+def defaults_run(did, seed):
+    """One default-valued argument with the property oracle. Returns problems."""
+    import random
+    import odl
+    import odl.solvers as sol
+    from odl.solvers.functional.derivatives import NumericalGradient, NumericalDerivative
+    from odl.solvers.functional.functional import FunctionalQuadraticPerturb
+    rng = random.Random(seed)
+    out = []
+    kind, _, dt = did.partition('/')
+    if kind in ('numgrad-step', 'numderiv-step'):
+        sp = odl.rn(3, dtype=dt)
+        eps = float(np.finfo(np.dtype(dt)).eps)
+        tol = 60 * math.sqrt(eps)
+        for cname, f in (('L2NormSquared', sol.L2NormSquared(sp)),
+                         ('Huber', sol.Huber(sp, 0.5)),
+                         ('Translation(L2sq)+L1', sol.L2NormSquared(sp).translated(sp.one()) + sol.L1Norm(sp))):
+            x = sp.element([rng.choice([-2.5, -1.75, 1.25, 2.0, 3.0]) for _ in range(3)])
+            g = np.asarray(f.gradient(x), dtype=float)
+            if kind == 'numgrad-step':
+                for method in ('forward', 'backward', 'central'):
+                    st, r = safe_call(lambda: np.asarray(NumericalGradient(f, method=method)(x), dtype=float))
+                    if st != 'ok':
+                        out.append(('default-raises', 'NumericalGradient({}, {}) on {} raised {}'.format(
+                            cname, method, dt, st)))
+                    elif not np.all(np.abs(r - g) <= tol * max(1.0, float(np.max(np.abs(g))), abs(float(f(x))))):
+                        out.append(('default-step', 'NumericalGradient({}, method={}, step=None) on rn(3, {}) '
+                                    'at x = {} gives {} but the gradient is {}'.format(
+                                        cname, method, dt, np.asarray(x).tolist(), r.tolist(), g.tolist())))
+            else:
+                if cname != 'L2NormSquared':
+                    continue
+                d = sp.element([1.0, -2.0, 0.5])
+                st, r = safe_call(lambda: np.asarray(NumericalDerivative(f.gradient, x)(d), dtype=float))
+                ref = 2 * np.asarray(d, dtype=float)
+                if st != 'ok':
+                    out.append(('default-raises', 'NumericalDerivative on {} raised {}'.format(dt, st)))
+                elif not np.all(np.abs(r - ref) <= tol * 10):
+                    out.append(('default-step', 'NumericalDerivative(grad L2sq, x, step=None)(d) on rn(3, {}) = '
+                                '{} but the Hessian applied to d is {}'.format(dt, r.tolist(), ref.tolist())))
+        return out
+    if kind == 'kl-prior':
+        sp = odl.uniform_discr(0, 1, 3, dtype=dt)
+        x = sp.element([0.5, 1.5, 2.0])
+        for cls in (sol.KullbackLeibler, sol.KullbackLeiblerCrossEntropy):
+            a, b = cls(sp), cls(sp, sp.one())
+            obs = lambda f: np.concatenate([[float(f(x))], np.asarray(f.gradient(x), dtype=float),  # noqa
+                                            [float(f.convex_conj(0.25 * x))],
+                                            np.asarray(f.proximal(0.5)(x), dtype=float)])
+            if not np.allclose(obs(a), obs(b), rtol=1e-4 if dt == 'float32' else 1e-12):
+                out.append(('default-prior', '{}(space) and {}(space, one) differ: {} vs {}'.format(
+                    cls.__name__, cls.__name__, obs(a).tolist(), obs(b).tolist())))
+        return out
+    if kind == 'groupl1-exponent':
+        ps = odl.ProductSpace(odl.rn(3), 2)
+        x = ps.element([[1.0, -2.0, 0.5], [2.0, 0.0, -1.5]])
+        a, b = sol.GroupL1Norm(ps), sol.GroupL1Norm(ps, 2)
+        if float(a(x)) != float(b(x)) or not np.allclose(_w_flat(ps, a.gradient(x)), _w_flat(ps, b.gradient(x))):
+            out.append(('default-exponent', 'GroupL1Norm(space) differs from exponent=2'))
+        return out
+    if kind == 'qp-linear-term':
+        sp = odl.rn(3)
+        x = sp.element([1.0, -2.0, 0.5])
+        f0 = sol.L1Norm(sp)
+        a, b = FunctionalQuadraticPerturb(f0, 1.0), FunctionalQuadraticPerturb(f0, 1.0, sp.zero(), 0)
+        if float(a(x)) != float(b(x)) or not np.array_equal(np.asarray(a.gradient(x)), np.asarray(b.gradient(x))) \
+                or not np.allclose(np.asarray(a.proximal(0.5)(x)), np.asarray(b.proximal(0.5)(x))):
+            out.append(('default-linear-term', 'linear_term=None differs from the zero vector'))
+        return out
+    if kind in ('simplex-rtol', 'sumconstraint-rtol'):
+        sp = odl.rn(5, dtype=dt)
+        x = sp.element([0.3, 1.7, -0.4, 2.2, 0.9])
+        f = sol.IndicatorSimplex(sp, 2.0) if kind == 'simplex-rtol' else sol.IndicatorSumConstraint(sp, 3.0)
+        p = f.proximal(1.0)(x)
+        if float(f(p)) != 0:
+            out.append(('default-rtol', '{} with the default sum_rtol on {} rejects its own projection {} '
+                        '(value {})'.format(type(f).__name__, dt, np.asarray(p).tolist(), f(p))))
+        return out
+    if kind == 'lscal-proximal-sigma':
+        sp = odl.rn(3)
+        x = sp.element([1.0, -2.0, 0.5])
+        f = 2.0 * sol.L1Norm(sp)
+        if not np.array_equal(np.asarray(f.proximal()(x)), np.asarray(f.proximal(1.0)(x))):
+            out.append(('default-sigma', '(2*L1).proximal() differs from proximal(1.0)'))
+        return out
+    return out
+
+
+def defaults_stream(ctx, mode):
+    for did in defaults_cases():
+        ctx.hit('default/' + did)
+        ctx.case(('default', did))
+        seed = ctx.rng.getrandbits(40)
+        st, probs = safe_call(defaults_run, did, seed)
+        if st != 'ok':
+            probs = [('default-raises', st)]
+        for key, what in probs[:3]:
+            ctx.violation('{} {}'.format(key, did), what,
+                          {'forms': 'default', 'id': did, 'seed': seed, 'mode': mode})
+
+
+def forms_stream(ctx, mode):
+    argform_stream(ctx, mode)
+    validation_stream(ctx, mode)
+    defaults_stream(ctx, mode)
+
+
+def forms_replay(ctx, case):
+    kind = case['forms']
+    if kind == 'argform':
+        for stratum, build in argform_cases():
+            if stratum == case['stratum']:
+                r = argform_run(stratum, build, int(case['seed']))
+                return '; '.join('{}: {}'.format(k, w) for k, w in r[:2]) or None
+    if kind == 'validation':
+        for vid, bad, expected, neighbour in validation_cases():
+            if vid == case['id']:
+                r = validation_run(ctx, case['mode'], vid, bad, expected, neighbour)
+                return '; '.join('{}: {}'.format(k, w) for k, w in r[:2]) or None
+    if kind == 'default':
+        r = defaults_run(case['id'], int(case['seed']))
+        return '; '.join('{}: {}'.format(k, w) for k, w in r[:2]) or None
+    return None
+
+
+def forms_expected_branches():
+    out = ['validation/' + v[0] for v in validation_cases()] + ['default/' + d for d in defaults_cases()]
+    for stratum, build in argform_cases():
+        import random
+        try:
+            _, _, forms, _ = build(random.Random(0))
+            out += ['{}/{}'.format(stratum, n) for n, _ in forms]
+        except Exception:  # noqa
+            out.append(stratum)
+    return out
